@@ -1234,6 +1234,19 @@ impl TypeCheckVisitor<'_> {
     ) -> Type {
         let recv_ty = self.infer_expr(recv, type_bindings, expected_return_ty);
         let Some(recv_ty_name) = recv_ty.type_name() else {
+            if matches!(recv_ty, Type::Tuple(_)) {
+                self.diagnostics.push(Diagnostic {
+                    notes: vec![],
+                    fixes: vec![],
+                    severity: Severity::Error,
+                    message: ErrorMessage(vec![
+                        msgcode!("{}", recv_ty),
+                        msgtext!(" is not a struct."),
+                    ]),
+                    position: field_sym.position.clone(),
+                });
+            }
+
             return Type::error("No type name found for this receiver");
         };
 
